@@ -273,6 +273,34 @@ theorem matching_error_contained (s : St) (cands : List Cand) :
       rw [(queueErrors_queue _ s).2]; exact hi
     exact u.2 k i hi'
 
+/-- **`matching_phase_lookup_safe`** (current tree: abort AFTER the loop). Several candidates of one scan may belong to the
+    same flow (heads of an and/or-group, `when … or when …`) or to child flows of a raising flow.  Because the scan only
+    collects the raising heads, it never changes an instance record: every candidate whose head existed when the scan began is
+    looked up successfully (no KeyError can leave `run_to_completion`), the scan result is exactly `matchPhaseRepaired`, and only
+    `ColangError` events are appended. -/
+theorem matching_phase_lookup_safe (s : St) (cands : List Cand) (hp : ∀ c ∈ cands, headPresent s c = true) :
+    ∃ s', scanLookup false s cands = some (s', matchPhaseRepaired cands) ∧ s'.insts = s.insts ∧
+      s'.queue = s.queue ++ List.replicate (cands.filter isErr).length IEv.colangError :=
+  scanLookup_safe cands s hp
+
+/-- witness (by evaluation) that the order matters — the seeded alternative "abort the raising flow inside the loop":
+    instance 11 waits with TWO heads for the same event (`match M(x=$nope.value) and M(x="str")`), the first raises; aborting
+    right away clears the heads, the look-up of the second candidate fails and the whole scan is lost, although the
+    observer candidate (instance 13) had already matched. -/
+def siblingState : St :=
+  { insts := [
+      { uid := 13, flowId := 3, status := .started, activated := 1, newInstanceStarted := false, parent := none, children := [],
+        heads := [{ uid := 4, pos := 1, status := .active, cstack := [] }] },
+      { uid := 11, flowId := 1, status := .started, activated := 0, newInstanceStarted := false, parent := none, children := [],
+        heads := [{ uid := 2, pos := 3, status := .active, cstack := [] }, { uid := 3, pos := 5, status := .active, cstack := [] }] }],
+    queue := [] }
+def siblingCands : List Cand :=
+  [{ fuid := 13, huid := 4, score := .pos 0 }, { fuid := 11, huid := 2, score := .err }, { fuid := 11, huid := 3, score := .pos 0 }]
+example : ∀ c ∈ siblingCands, headPresent siblingState c = true := by decide
+theorem abort_inside_loop_lookup_fails : scanLookup true siblingState siblingCands = none := by decide
+example : (scanLookup false siblingState siblingCands).map (·.2.matching) =
+    some [{ fuid := 13, huid := 4, score := .pos 0 }, { fuid := 11, huid := 3, score := .pos 0 }] := by decide
+
 /-- non-vacuity / witness of the probe: candidates `a` (raises: `less_than(3)` against a string) and observer `b` -/
 example : matchPhaseAsIs [{ fuid := 1, huid := 1, score := .pos 0 }, { fuid := 2, huid := 2, score := .err }] = none := by decide
 example : (matchPhaseRepaired [{ fuid := 1, huid := 1, score := .pos 0 }, { fuid := 2, huid := 2, score := .err }]).matching
